@@ -515,26 +515,26 @@ def run(ctx):
         tts = range(256) if not q else sorted(rng.sample(range(256), 24))
         stream_routes(ctx, 3, order, tts)
     for order in (gen.orders(4) if not q else rng.sample(gen.orders(4), 3)):
-        stream_routes(ctx, 4, order, [rng.getrandbits(16) for _ in range(6 if q else 40)])
+        stream_routes(ctx, 4, order, [rng.getrandbits(16) for _ in range(6 if q else 16)])
     for order in (gen.orders(3) if not q else rng.sample(gen.orders(3), 3)):
-        stream_subst(ctx, 3, order, sorted(rng.sample(range(256), 6 if q else 64)), 4 if q else 12)
-    for order in rng.sample(gen.orders(4), 1 if q else 8):
-        stream_subst(ctx, 4, order, [rng.getrandbits(16) for _ in range(3 if q else 24)], 4 if q else 12)
+        stream_subst(ctx, 3, order, sorted(rng.sample(range(256), 6 if q else 32)), 4 if q else 8)
+    for order in rng.sample(gen.orders(4), 1 if q else 6):
+        stream_subst(ctx, 4, order, [rng.getrandbits(16) for _ in range(3 if q else 12)], 4 if q else 8)
     for n in (2, 3, 4):
-        for _ in range(3 if q else 30):
+        for _ in range(3 if q else 16):
             order = rng.choice(gen.orders(n))
             stream_copies(ctx, n, order, [rng.getrandbits(1 << n) for _ in range(rng.randint(1, 3))],
                           aged=rng.random() < 0.5)
     for n in (3, 4):
-        for _ in range(3 if q else 24):
+        for _ in range(3 if q else 10):
             order, order2 = rng.choice(gen.orders(n)), rng.choice(gen.orders(n))
             stream_renames(ctx, n, order, order2,
-                           [rng.getrandbits(1 << n) for _ in range(3 if q else 10)] + [(1 << (1 << n)) - 2, 1 << ((1 << n) - 1)],
-                           12 if q else 60, rng.random() < 0.5)
+                           [rng.getrandbits(1 << n) for _ in range(3 if q else 6)] + [(1 << (1 << n)) - 2, 1 << ((1 << n) - 1)],
+                           12 if q else 40, rng.random() < 0.5)
     for n_ in (3, 4, 5):
-        stream_reorder_cache(ctx, n_, 6 if q else 60)
+        stream_reorder_cache(ctx, n_, 6 if q else 30)
     stream_large(ctx, 9, 320 if q else 700)
     if not q:
-        stream_large(ctx, 10, 1200)
-    for i in range(6 if q else 40):
+        stream_large(ctx, 10, 800)
+    for i in range(6 if q else 30):
         stream_history(ctx, rng.choice([2, 3, 4]), 30 if q else 60)
